@@ -167,6 +167,9 @@ func (s *Scripted) serve(c net.Conn) {
 //	held back (before its first byte / after C08_FRAC of the line) until the file C08_GO exists; the file
 //	C08_MARK is created when the hold begins. Afterwards the child goes on serving.
 //
+//	serve: answers initialize, nothing else. slow-start: the same, but the child first reports that it is starting
+//	up (C08_MARK) and does not read its stdin before the file C08_GO exists.
+//
 // C08_FRAC:   fraction of the answer line written before the fault (partial-*, hold-*-mid)
 // C08_CHILD:  default | ignores-sigint | lingers (ignores SIGINT and SIGPIPE and stays after the end of its stdin)
 func stdioScriptChild() {
@@ -203,6 +206,17 @@ func stdioScriptChild() {
 			}
 		}
 		os.Stdout.WriteString(ans[cut:] + "\n")
+	}
+	if mode == "slow-start" {
+		// still starting up: says so (mark file) and does not look at its stdin until it is told to go on
+		if mark != "" {
+			os.WriteFile(mark, nil, 0o644)
+		}
+		for t0 := time.Now(); gofile != "" && time.Since(t0) < 90*time.Second && !orphaned(); time.Sleep(3 * time.Millisecond) {
+			if _, err := os.Stat(gofile); err == nil {
+				break
+			}
+		}
 	}
 	heldCall := false
 	rd := bufio.NewReaderSize(os.Stdin, 1<<20)
